@@ -3296,7 +3296,8 @@ def cartesian(
         ]
 
         result = ak.layout.RecordArray(outs, recordlookup, parameters=parameters)
-        for i in range(len(new_arrays) - 1, -1, -1):
+        # the last array never starts a nested level (for a dict, its key is ignored)
+        for i in range(len(new_arrays) - 2, -1, -1):
             if i in nested:
                 result = ak.layout.RegularArray(result, len(layouts[i + 1]), 0)
 
